@@ -61,6 +61,7 @@ def _task(args):
                        prove_timeout_ms=getattr(H, "PROVE_TIMEOUT_MS", 60000))
         eng.numeric_first = getattr(H, "NUMERIC_FIRST", 0)
         eng.fast_real = getattr(H, "FAST_REAL", False)
+        eng.xcheck_limit = 3 if os.environ.get("BVERIF_XCHECK") else 0
         assumptions = set()
 
         def fn(e):
@@ -90,6 +91,7 @@ def _task(args):
         out["reach"] = eng.reach
         out["violations"] = [_violation_record(v, cfg) for v in eng.violations[:50]]
         out["sources"] = L.functions_encoded()
+        out["xcheck"] = eng.xcheck
         out["assumptions"] = sorted(assumptions)
     except E.Inconclusive as inc:
         out["inconclusive"] = "%s: %s" % (type(inc).__name__, inc.reason)
@@ -204,6 +206,41 @@ def validate_models(H, cfgs, L, report):
     return n, None
 
 
+def _cvc5_one(item):
+    import subprocess
+    import tempfile
+    label, txt = item
+    with tempfile.NamedTemporaryFile("w", suffix=".smt2", delete=False) as f:
+        f.write(txt)
+    try:
+        p = subprocess.run(["cvc5", "--tlimit=20000", f.name], capture_output=True, text=True, timeout=40)
+        out = (p.stdout or "").strip().splitlines()
+        ans = out[0].strip() if out else "error"
+        if "(error" in (p.stdout or "") or "(error" in (p.stderr or ""):
+            ans = "error"
+    except Exception:
+        ans = "timeout"
+    finally:
+        os.unlink(f.name)
+    return label, ans
+
+
+def second_opinion(dumps, jobs):
+    """z3 said unsat for each of these queries; cvc5 1.0.3 re-decides them.  sat from cvc5 is a disagreement
+    (=> inconclusive); unknown / timeout / error are counted and change nothing."""
+    from concurrent.futures import ThreadPoolExecutor
+    t = time.time()
+    with ThreadPoolExecutor(max(1, min(jobs, 16))) as ex:
+        res = list(ex.map(_cvc5_one, dumps))
+    counts = {}
+    bad = []
+    for label, ans in res:
+        counts[ans] = counts.get(ans, 0) + 1
+        if ans == "sat":
+            bad.append("second solver (cvc5) says sat where z3 said unsat: obligation '%s'" % label)
+    return dict(solver="cvc5 1.0.3", queries=len(res), answers=counts, wall_s=round(time.time() - t, 1), disagreements=bad)
+
+
 def load_known():
     if not os.path.exists(KNOWN):
         return []
@@ -312,7 +349,9 @@ def main(argv=None):
     assumptions = set(getattr(H, "ASSUMPTIONS", []))
     per_cfg = {}
     raw_violations = list(extra.get("violations", [])) + (fixture_violations if not patches else [])
+    xdumps = []
     for r in results:
+        xdumps.extend(r.get("xcheck") or [])
         if r["inconclusive"]:
             inconclusive.append("cfg %s: %s" % (r["cfg"].get("name"), r["inconclusive"]))
         if r["stats"]:
@@ -351,6 +390,13 @@ def main(argv=None):
             b[2] += r["stats"]["queries"] if r["stats"] else 0
         for k, b in by.items():
             print("  cfg %-40s paths=%-7d cpu=%.1fs queries=%d" % (k, b[0], b[1], b[2]))
+
+    # ---- second opinion (thorough tier): a sample of the discharged obligations is re-decided by cvc5
+    second = None
+    if os.environ.get("BVERIF_XCHECK") and xdumps:
+        second = second_opinion(xdumps[:60], jobs)
+        for msg in second.pop("disagreements"):
+            inconclusive.append(msg)
 
     # ---- vacuity guards
     for name, pc in per_cfg.items():
@@ -412,6 +458,7 @@ def main(argv=None):
         exhaustive=not inconclusive,
         known_findings=[dict(key=k, what=h["what"]) for k, h in known_hit.items()],
         inconclusive=inconclusive[:10],
+        second_opinion=second,
         engine="bverif (z3 %s), solver-decided path exploration of /repo source" % ".".join(map(str, __import__("z3").get_version())),
     )
     coverage.update(extra.get("coverage", {}))
